@@ -158,7 +158,11 @@ pub fn materialize(seed: u64, profile: &str, dir: &Path) -> String {
         names.swap(i, j);
     }
     let mut glyphs: Vec<GlyphSpec> = Vec::new();
+    // code points from several scripts, so that kerning is split per script and merged again
+    // where groups span scripts (look-alike groups), with left-to-right and right-to-left runs
     let mut next_cp = 0x41u32;
+    let mut next_in_block = [0x391u32, 0x410, 0x5D0, 0x627, 0x905];
+    let multi_script = profile == "kern" || profile == "mixed" || rng.chance(1, 3);
     for (i, name) in names.iter().enumerate() {
         let composite_ok = i >= 2;
         let kind = if name == "space" {
@@ -205,8 +209,15 @@ pub fn materialize(seed: u64, profile: &str, dir: &Path) -> String {
             _ => {}
         }
         if rng.chance(2, 3) && name != ".notdef" {
-            g.codepoint = Some(next_cp);
-            next_cp += 1 + rng.below(3) as u32;
+            if multi_script && rng.chance(2, 5) {
+                let blocks = if rng.chance(3, 4) { 2 } else { next_in_block.len() };
+                let b = rng.below(blocks);
+                g.codepoint = Some(next_in_block[b]);
+                next_in_block[b] += 1;
+            } else {
+                g.codepoint = Some(next_cp);
+                next_cp += 1 + rng.below(3) as u32;
+            }
         }
         if rng.chance(1, 8) && i > 0 && name != "space" && name != ".notdef" {
             g.export = false;
